@@ -49,7 +49,7 @@ META["C19"] = dict(
 MWU_TB = COMMON_TB + ["normal-approximation p-values are compared against an interval enclosure of Phi computed by MV.I.Phi (series + Mills bounds); its soundness over the reals is stated in MV/Proofs/Interval.lean where proved, otherwise trusted"]
 
 META["C02"] = dict(
-    level_text="Theorems (Lean, all N1,N2,T): the executed count tables (forward generating-function DP over tie groups; Mann-Whitney recurrence table) equal the definitional count over allocation vectors weighted by prod C(t_k,r_k), i.e. the number of size-N1 subsets of the ranked pool with 2U<=2u; consequences: CDF monotone, total mass 1 (Vandermonde), mirror law between (N1,N2,T) and (N2,N1,T). Correspondence: UDist.CDF/PMF of the real code are compared with that exact rational value (rtol 1e-9) on every (N1,N2,T) with N<=8 (thorough 11) over the whole half-integer grid plus off-grid reals, and on random cases up to 50+50 untied and 25+25 tied.",
+    level_text="Theorems (Lean, all N1,N2,T): the executed count tables (forward generating-function DP over tie groups; Mann-Whitney recurrence table) equal the definitional count over allocation vectors weighted by prod C(t_k,r_k), i.e. the number of size-N1 subsets of the ranked pool with 2U<=2u; consequences: CDF monotone, total mass 1 (Vandermonde), mirror law between (N1,N2,T) and (N2,N1,T); the Cheung-Klotz recursion with pruning and floor division equals the same count (aK_eq_countSpec); six integer helper functions (maxint, minint, sumint, hasTies, twoUmin, twoUmax) are translated from the Go source on every run by tools/go2lean and proved equal to the model functions (C02Gen) where listed in the evidence. Correspondence: UDist.CDF/PMF of the real code are compared with that exact rational value (rtol 1e-9) on every (N1,N2,T) with N<=8 (thorough 11) over the whole half-integer grid plus off-grid reals, and on random cases up to 50+50 untied and 25+25 tied.",
     level_note="Trusted: Lean kernel, harness sampling. Go's float rounding (exp-lgamma Choose for n>20, DP in float64) is absorbed by rtol 1e-9/atol 1e-12. PMF is compared at attainable points only, as the property states.",
     technique="Lean 4 proof that the executed DP equals subset counting + exact rational differential correspondence",
     rule="ud n1 n2 T cdf|pmf u. Exhaustive: every (N1,N2) with N<=8 (thorough 11), T nil and every composition of N into >=2 parts, u on the half-integer grid -1..N1N2+1 (sampled 1/4 in the interior for N>=10) plus 3 random off-grid reals; random larger cases to 50+50 untied / 25+25 tied with u at the centre, tails, grid and off-grid. non-trivial = tied with >=2 ranks, or untied with N>=6",
@@ -67,7 +67,7 @@ META["C01"] = dict(
     assumptions=["finite inputs; exact-method limits at their defaults (50, 25)"],
 )
 META["C03"] = dict(
-    level_text="Theorems (Lean): swap law U(x2,x1)=N1N2-U(x1,x2); error characterisation (one tie group iff all pooled values equal; variance zero iff all equal); the decision logic of the model (method selection by the two limits, continuity corrections) is the property's formula. Correspondence: the real code is run at several settings of the two limit variables on samples up to 400 values and compared with the model: N1,N2,U,error kind and argument slices exactly, exact P to 1e-9, approximate P against a certified-style interval enclosure of the normal tail at the model's exact z.",
+    level_text="Theorems (Lean): swap law U(x2,x1)=N1N2-U(x1,x2); error characterisation (one tie group iff all pooled values equal; variance zero iff all equal); the decision logic of the model (method selection by the two limits, continuity corrections) is the property's formula; the normal approximation's mean N1N2/2 and tie-corrected variance are exactly the mean and variance of the exact distribution of C02 for every tie vector (C03Moments.U_mean_pmf, U_variance_pmf). Correspondence: the real code is run at several settings of the two limit variables on samples up to 400 values and compared with the model: N1,N2,U,error kind and argument slices exactly, exact P to 1e-9, approximate P against the proved enclosure of Phi at the model's exact z, held to its own size (1e-9 relative however small) where the formula evaluates Phi(z) directly and to 2^-48 where it evaluates 1-Phi(z).",
     level_note="Trusted: as C01, plus the Phi enclosure (MV.I.Phi) used as reference for the approximate branch. Laws (reorder, monotone map, swap) are theorems of the model; the generator emits swapped/reordered/mapped variants so the code is compared on them.",
     technique="Lean 4 proofs of the laws on the model + differential correspondence at several limit configurations",
     rule="mwu x1 x2 alt exactLimit tiesLimit with limits in {(50,25),(0,0),(3,3),(1e6,1e6),(10,40)}; sizes straddle 25/50 (+-3), small, and up to 400+400; tie levels none/coarse grid/heavy/all-equal; empties; swapped, reordered, monotone-mapped and other-method variants of the same data. non-trivial = tied, or both samples >=3",
@@ -89,7 +89,7 @@ META["C06"] = dict(
 )
 
 META["C14"] = dict(
-    level_text="Theorems (Lean): bin x = i iff BinToValue i <= x < BinToValue (i+1) for the linear rule; every Add increments exactly one counter (conservation under any history); BinToValue is strictly increasing and affine; the rank walk returns the bin holding the goal-th binned sample with in-bin rank, is monotone in the goal and is NaN exactly when that sample is in the under/over-flow. Correspondence: counters after every history (exact off bin edges, either neighbour within rounding distance of an edge), BinToValue, HistogramQuantile and HistogramIQR of the real code against the model, for linear and logarithmic histograms.",
+    level_text="Theorems (Lean): bin x = i iff BinToValue i <= x < BinToValue (i+1) for the linear rule; every Add increments exactly one counter (conservation under any history); BinToValue is strictly increasing and affine; the rank walk returns the bin holding the goal-th binned sample with in-bin rank, is monotone in the goal and is NaN exactly when that sample is in the under/over-flow; LogHist over the reals (C14Log): bin = floor(m log_b x) iff BinToValue(i) <= x < BinToValue(i+1), BinToValue strictly increasing, conservation, and soundness of the judge's candidate bins and BinToValue enclosures (pos_sound, candsRange_sound, judge_sound, b2v_sound). Correspondence: counters after every history (exact off bin edges, either neighbour within rounding distance of an edge), BinToValue, HistogramQuantile and HistogramIQR of the real code against the model, for linear and logarithmic histograms.",
     level_note="Trusted: Lean kernel, harness sampling; LogHist positions m*log_b(x) are enclosed by MV.I.logQ (interval arithmetic; soundness per MV/Proofs/Interval.lean where proved). Near-tie policy: a value within 8-16 eps (relative) of an edge may land in either neighbouring bin, as the property allows.",
     technique="Lean 4 proofs about the binning rule and rank walk + differential correspondence over Add histories",
     rule="lh min max n xs qs bs / gh b m max xs qs bs: one histogram history per line (0..60 adds, thorough 0..500), 1..50 bins, values dense just below the first edge, at exact edges, around the top edge and far outside; q in {0,1,j/total,random}; LogHist bases 2..10 with 1..4 bins per power, max at exact powers and arbitrary. non-trivial = >=3 adds",
@@ -184,9 +184,9 @@ META["C12"] = dict(
 )
 
 META["C04"] = dict(
-    level_text="Theorems (Lean): the model statistics are the textbook expressions (pooled, Welch-Satterthwaite, paired, one-sample) with the library's error checks in the library's order; swapping the samples negates the numerator and keeps the denominator and DoF; shifting and positive scaling leave T^2, sign and DoF unchanged. Correspondence: N1, N2, sign(T), T^2, DoF and the error kind of the real code against the exact rational model (tolerance scaled by the cancellation factors of the data); P against the closed-form Student-t CDF at integer DoF (interval enclosure built from proved-sound atan/sqrt/pi) and, for Welch's non-integer DoF, against the library's own t CDF at (T,DoF) (wiring); MeanCI: mean, symmetry and t-content of the interval equal to c.",
+    level_text="Theorems (Lean): the model statistics are the textbook expressions (pooled, Welch-Satterthwaite, paired, one-sample) with the library's error checks in the library's order; swapping the samples negates the numerator and keeps the denominator and DoF; shifting and positive scaling leave T^2, sign and DoF unchanged. Correspondence: N1, N2, sign(T), T^2, DoF and the error kind of the real code against the exact rational model (tolerance scaled by the cancellation factors of the data); P, at every DoF (integer or Welch's real one), against the proved Student-t reference MV.Special.tCDFgen evaluated at the exact T (C05StudentT.tCDFgen_encloses_cdf: it encloses the integral of the t density); the closed-form t CDF at integer DoF is only a cross-check (reference-consistency); wiring P = tail of the library's own CDF at (T,DoF); MeanCI: mean, symmetry, finiteness and t-content of the interval equal to c, from the same reference.",
     level_note="Trusted: Lean kernel, harness sampling, MV.I enclosures and the closed-form t CDF at integer DoF (MV.Special.tCDF, numerically cross-checked; its derivation is textbook and not formalised). Welch's non-integer DoF: P is compared with the general-parameter t CDF reference MV.Special.tCDFgen, which is proved to enclose the Student-t CDF defined as the integral of the density (C05StudentT.tCDFgen_encloses_cdf, built on the proved incomplete-beta and log-Gamma references of C08)",
-    technique="Lean 4 proofs of the statistic identities + exact rational differential correspondence with closed-form t reference",
+    technique="Lean 4 proofs of the statistic identities and of the Student-t reference (series -> incomplete beta integral -> t CDF) + exact rational differential correspondence",
     rule="tt pooled|welch|paired|one x1 x2 mu0 alt, meanci xs c. 2..40 values per sample (small sizes 1/5; sizes 0/1 1/25 for the error cases), centres {0,1,100,-5000,1e5,999990}, spreads 2^-4..2^4, unequal variances, zero-variance samples, mismatched paired lengths, mu0 near and far, all three alternatives; swapped and shifted/scaled variants; a short paired test right after a long one; MeanCI at c in {0,1,-0.5,1.5,.5,.9,.95,.99,1e-6,1-1e-9,random}. non-trivial = every case not skipped",
     exhaustive_part="",
     trusted_base=COMMON_TB + ["closed-form Student-t CDF at integer DoF (MV.Special.tCDF) as P reference"],
@@ -194,18 +194,18 @@ META["C04"] = dict(
 )
 
 META["C05"] = dict(
-    level_text="Theorems (Lean): the interval enclosures of the normal density and CDF are sound for every rational argument (MV.Proofs.Interval: phi_sound, Phi_sound, where Phi is defined as the Gaussian integral), so every NormalDist PDF/CDF value and every InvCDF round trip is decided against a certified reference (relative 1e-9 down to p=1e-300 through the enveloping tail series); DeltaDist is exact. Student t: PDF and CDF against closed forms at integer V (1..400), and the laws (range, monotone, symmetry, limits, non-negative density) for every real V in [0.1,1e4] evaluated on the code's outputs.",
+    level_text="Theorems (Lean): the interval enclosures of the normal density and CDF are sound for every rational argument (MV.Proofs.Interval: phi_sound, Phi_sound, where Phi is defined as the Gaussian integral), so every NormalDist PDF/CDF value and every InvCDF round trip is decided against a certified reference (relative 1e-9 down to p=1e-300 through the enveloping tail series); DeltaDist is exact. Student t: for every real V in [0.1,1e4] CDF against the proved reference tCDFgen (C05StudentT: studentT_cdf, tCDFgen_encloses_cdf - the returned interval contains the integral of the t density over (-inf,t]; built on the proved incomplete-beta series, B = Gamma Gamma/Gamma and the log-Gamma enclosure from the incomplete-gamma series), PDF against the density formula with that log-Gamma enclosure, closed forms at integer V as cross-checks, plus the laws (range, monotone, symmetry, limits, non-negative density) on the code's outputs; NormalDist.Rand against the variate of the same source and for a nil source.",
     level_note="The normal distribution is decided against proved enclosures (Phi defined as the Gaussian integral). TDist at every real V in range is decided against MV.Special.tCDFgen, proved to enclose the integral of the Student-t density over (-inf, t] (C05StudentT.studentT_cdf, tCDFgen_encloses_cdf; chain: fixed-point series loop -> real series -> incomplete beta integral -> substitution u = V/(V+s^2); log Gamma from the proved incomplete-gamma series). The integer-V closed forms are now only a cross-check (clause reference-consistency). Conditional on the series loops terminating within their fuel, which the driver checks per case. Partial only in that float rounding of the Go code is absorbed by the 1e-9 tolerance, not modelled",
-    technique="Lean 4 certified interval reference (normal) + closed-form reference (t at integer V) + laws on outputs",
+    technique="Lean 4 proved interval references (Phi as the Gaussian integral; Student-t CDF via proved incomplete-beta and log-Gamma enclosures) + laws on outputs, differential correspondence",
     rule="nd mu sigma pdf|cdf|inv|misc x: mu in +-{0,1,100,1e6}, sigma log-uniform 1e-6..1e6 (standard normal 1/4), z up to +-40 incl. 0, +-7, 37; p in (0,1): uniform, 10^-U(0,300), 1-10^-U(0,15), the branch points 0.02425, ends and outside; td V grid xs: V integer 1..40, {1,2,3,100,170,171,300,342,343,344,399,400}, or log-uniform real in [0.1,1e4], symmetric ascending grids with |x| from 1e-7 to 40; dd T pdf|cdf|inv x around the atom. non-trivial = every case",
     exhaustive_part="",
     trusted_base=COMMON_TB + ["MV.I enclosures of exp/sqrt/pi/Phi (soundness in MV/Proofs/Interval.lean)", "closed-form Student-t PDF/CDF at integer V (MV.Special)"],
     assumptions=["Sigma>0; 0.1<=V<=1e4"],
 )
 META["C08"] = dict(
-    level_text="Theorems (Lean): chooseFast = Nat.choose; the integer-parameter incomplete beta model is a polynomial in x with value 0 at 0 and 1 at 1; symmetry and complement identities on the slices. Correspondence: BetaInc against exact rational values at integer (a,b) and against the t-distribution closed form at (k/2,1/2) and (1/2,k/2); GammaInc/GammaIncComp against enclosures at integer and half-integer a; Choose (exact for n<=20, 1e-10 relative to 1000), Lchoose, Beta at integers, Sign; and for real parameters across the whole stated range the laws evaluated on the code's outputs: range, monotone in x on ascending dyadic grids, complement identity I_x(a,b)+I_(1-x)(b,a)=1 (1-x exact), 0/1 at the ends, NaN outside, P+Q=1; panics and non-convergence are failures.",
+    level_text="Theorems (Lean): the general-parameter references are sound over the reals: gammaRegI_encloses_P (the returned interval contains the regularised incomplete gamma integral: fixed-point series loop invariant, series = integral by iterated integration by parts, far upper tail, log Gamma from the same series: lgammaS_sound), betaRegIWith_encloses + lbetaI_sound (hypergeometric series loop invariant, series = incomplete beta integral, reflection I_x(a,b) = 1 - I_(1-x)(b,a), B = Gamma Gamma/Gamma); chooseFast = Nat.choose; integer-parameter closed forms (betaIncR_eq_integral, gammaIncInt_sound, lchoose_sound). Correspondence: BetaInc and GammaInc/GammaIncComp over the whole stated parameter range (and x up to MaxFloat64) against those references to 1e-9, with the closed forms on integer / half-integer slices as cross-checks (reference-consistency); Beta against exp(lbetaI); Choose (exact for n<=20, 1e-10 relative to 1000), Lchoose, Beta at integers, Sign; and for real parameters across the whole stated range the laws evaluated on the code's outputs: range, monotone in x on ascending dyadic grids, complement identity I_x(a,b)+I_(1-x)(b,a)=1 (1-x exact), 0/1 at the ends, NaN outside, P+Q=1; panics and non-convergence are failures.",
     level_note="References are proved end to end in Lean against Mathlib's Real.Gamma and interval integrals: GammaInc/GammaIncComp (C08LogGamma.gammaRegI_encloses_P: series loop invariant, series = integral by iterated integration by parts, far tail by a proved bound, log Gamma from the same series), BetaInc (C08BetaIdentity.betaRegIWith_encloses with C05StudentT.lbetaI_sound: hypergeometric series loop invariant, series = incomplete beta integral, reflection, B = Gamma Gamma/Gamma), integer-parameter closed forms, Lchoose. The half-integer closed forms and the Stirling enclosure are only cross-checks (clause reference-consistency). Conditional on the series loops terminating within their fuel, which the driver checks per case. Partial only in that float rounding of the Go code is absorbed by the stated tolerances, not modelled",
-    technique="Lean 4 exact/closed-form references on rational slices + identities evaluated on outputs",
+    technique="Lean 4 proved interval references for the incomplete gamma and beta functions and log Gamma (series loop invariants + integral identities over the reals) + identities evaluated on outputs, differential correspondence",
     rule="mx betagrid a b xs (a,b log-uniform in [0.05,300]; integers to 300; (k/2,1/2) slices; corners; x dyadic, ascending, incl. 0, 1, the mean a/(a+b), the branch switch (a+1)/(a+b+2) and its neighbours, 10^-U(0,12), 1-10^-U(0,12)); mx gammagrid a xs (a real / integer / half-integer; x at 0, a, a+1 and neighbours, lognormal around a, tiny, 1000; NaN cases); mx choose n k (all n<=70 quick / n<=1000 thorough with sampling above 60, out-of-range k); mx beta a b; mx sign x. non-trivial = every case",
     exhaustive_part="Choose/Lchoose: all (n,k) with n<=70 (thorough: n<=60 all, 1/4 sample to 1000)",
     trusted_base=COMMON_TB + ["MV.I enclosures; closed forms MV.Special.{betaIncInt,betaIncHalf,gammaIncInt,gammaIncHalf}"],
